@@ -118,13 +118,21 @@ def scan_enums(src, scope_fn=False):
 
 
 def scan_crate_enums(crate_dir):
+    """{short name: variants} plus {module::path::Name: variants} (the module path is derived from the file path), so
+    that two enums with the same name in different modules (ty::Ty / ty::infer::Ty) stay distinct"""
     res = {}
     for root, dirs, files in os.walk(crate_dir):
         dirs.sort()
         for f in sorted(files):
             if f.endswith('.rs'):
+                rel = os.path.relpath(os.path.join(root, f), crate_dir)[:-3]
+                parts = [x for x in rel.split(os.sep) if x not in ('mod', 'lib', 'main')]
+                mod = '::'.join(parts)
                 for k, v in scan_enums(open(os.path.join(root, f), encoding='utf-8', errors='replace').read()).items():
+                    if k in res and res[k] != v:
+                        res.setdefault('__ambiguous__', set()).add(k)
                     res.setdefault(k, v)
+                    res[(mod + '::' + k) if mod else k] = v
     return res
 
 
@@ -140,6 +148,7 @@ STD_ENUMS = {
     'TokenAtOffset': [('None', False, 0), ('Single', True, 1), ('Between', True, 2)],
     'Direction': [('Next', False, 0), ('Prev', False, 1)],
     'WalkEvent': [('Enter', True, 0), ('Leave', True, 1)],
+    'Entry': [('Occupied', True, 0), ('Vacant', True, 1)],
     'Level': [('Error', False, 1), ('Warn', False, 2), ('Info', False, 3), ('Debug', False, 4), ('Trace', False, 5)],
     'LevelFilter': [('Off', False, 0), ('Error', False, 1), ('Warn', False, 2), ('Info', False, 3), ('Debug', False, 4), ('Trace', False, 5)],
 }
